@@ -351,6 +351,13 @@ protected:
 
         m_writer.write(name);
 
+        // A system literal that contains a quotation mark must be
+        // delimited by apostrophes.
+        const value_type    theQuote =
+            indexOf(m_doctypeSystem, XalanUnicode::charQuoteMark) < m_doctypeSystem.length() ?
+                value_type(XalanUnicode::charApostrophe) :
+                value_type(XalanUnicode::charQuoteMark);
+
         if (m_doctypePublic.empty() == false)
         {
             // " PUBLIC \""
@@ -362,19 +369,21 @@ protected:
 
             m_writer.write(value_type(XalanUnicode::charQuoteMark));
             m_writer.write(value_type(XalanUnicode::charSpace));
-            m_writer.write(value_type(XalanUnicode::charQuoteMark));
+            m_writer.write(theQuote);
         }
         else
         {
-            // " SYSTEM \""
+            // " SYSTEM ", without the quotation mark that ends the string
             m_writer.write(
                 m_constants.s_doctypeHeaderSystemString,
-                m_constants.s_doctypeHeaderSystemStringLength);
+                m_constants.s_doctypeHeaderSystemStringLength - 1);
+
+            m_writer.write(theQuote);
         }
 
         writeName(m_doctypeSystem.c_str());
 
-        m_writer.write(value_type(XalanUnicode::charQuoteMark));
+        m_writer.write(theQuote);
         m_writer.write(value_type(XalanUnicode::charGreaterThanSign));
 
         outputNewline();
